@@ -29,7 +29,8 @@ def main():
                 junk = [dict(a=i) for i in range(n // 2)]
                 del junk
             if op == "render":
-                b = pl.build(req["samples"], req["opts"], extra_models=[tuple(x) for x in req.get("extra_models", [])])
+                b = pl.build(req["samples"], req["opts"], name=req.get("name", "Root"),
+                             extra_models=[tuple(x) for x in req.get("extra_models", [])])
                 opts = pl.norm_opts(req["opts"])
                 nested = bool(opts["nested"] and (req.get("force_nested") or pl.is_tree(b.reg)))
                 stats = dict(
@@ -42,7 +43,7 @@ def main():
                 text = pl.render(b.reg, dict(opts, nested=nested), preamble=req.get("preamble"))
                 resp = {"ok": True, "text": text, "stats": stats}
             elif op == "render_model":
-                b = pl.build(req["samples"], req["opts"])
+                b = pl.build(req["samples"], req["opts"], name=req.get("name", "Root"))
                 resp = {"ok": True, "text": pl.render_single_model(b.reg, req["opts"], req["index"])}
             elif op == "ping":
                 resp = {"ok": True, "hashseed": __import__("os").environ.get("PYTHONHASHSEED"), "hash": hash("j2m")}
